@@ -384,6 +384,38 @@ def parseProgramL (cs : List Char) : Option Program :=
 
 def parseProgram (s : String) : Option Program := parseProgramL s.toList
 
+/-! ## the range of numerals (`isize`): checked after the grammar has accepted the text -/
+
+def isizeFits (n : Int) : Bool := decide (-9223372036854775808 ≤ n) && decide (n ≤ 9223372036854775807)
+
+def Term.inRange : Term → Bool
+  | .pre (.num n) => isizeFits n
+  | .pre _ => true
+  | .var _ => true
+  | .neg t => t.inRange
+  | .bin _ l r => l.inRange && r.inRange
+
+def Atom.inRange (a : Atom) : Bool := a.args.all Term.inRange
+
+def BodyAtom.inRange : BodyAtom → Bool
+  | .lit l => l.atom.inRange
+  | .cmp _ l r => l.inRange && r.inRange
+
+def Head.inRange : Head → Bool
+  | .basic a | .choice a => a.inRange
+  | .falsity => true
+
+def Rule.inRange (r : Rule) : Bool := r.head.inRange && r.body.all BodyAtom.inRange
+
+def Program.inRange (p : Program) : Bool := p.all Rule.inRange
+
+/-- `impl Parser for PestParser` since the numeral-range fix: a text the grammar accepts is refused
+    ("number out of range") when one of its numerals does not fit `isize` -/
+def parseProgramChecked (s : String) : Option Program :=
+  match parseProgram s with
+  | some p => if p.inRange then some p else none
+  | none => none
+
 /-- `term_eoi` -/
 def parseTerm (s : String) : Option Term :=
   match termL (2 * s.length + 2) s.toList with
